@@ -19,7 +19,7 @@ META = {
         "event ids never collide with attribute names of the machine (C13 covers those)",
     ],
     "must_observe": ["events_executed", "contested_nonfirst", "not_allowed", "ignored", "validator_aborts", "guards_seen"],
-    "shard_timeout": {"quick": 300, "thorough": 3400},
+    "shard_timeout": {"quick": 900, "thorough": 3400},
 }
 
 PROFILE = {"n_states": (2, 7), "n_events": (1, 4), "extra_transitions": (1, 8), "p_multi_event": 0.25,
